@@ -23,13 +23,19 @@ import (
 	"verif/vs/drv"
 )
 
+// c20multi: an error value of a type that cannot be compared or hashed (an aggregate of errors, as
+// errors.Join-like helpers and some drivers return): classifying it must not panic
+type c20multi []error
+
+func (m c20multi) Error() string { return fmt.Sprintf("%d errors: %v", len(m), []error(m)) }
+
 type c20timeout struct{}
 
 func (c20timeout) Error() string   { return "i/o timeout" }
 func (c20timeout) Timeout() bool   { return true }
 func (c20timeout) Temporary() bool { return true }
 
-// symbols: F frame, P frame whose processing fails, A EAGAIN, T timeout, R ECONNRESET, U unknown (same text each time), V unknown (text differs by position),
+// symbols: F frame, P frame whose processing fails, A EAGAIN, T timeout, R ECONNRESET, U unknown (same text each time), V unknown (text differs by position), H unknown of an unhashable, incomparable type,
 // E EOF, B EBADF, C closed file, X unexpected EOF, Y closed pipe, a wrapped EAGAIN, r wrapped ECONNRESET,
 // t a timeout net.Error that wraps another errno (net.OpError{Err: ETIMEDOUT}), w EWOULDBLOCK wrapped with %w;
 // frames whose PROCESSING fails with an error value that a read fault could also have: p io.ErrUnexpectedEOF,
@@ -58,6 +64,8 @@ func c20err(sym byte, i int) error {
 		return errors.New("unknown failure")
 	case 'V':
 		return fmt.Errorf("unknown-%d", i)
+	case 'H':
+		return c20multi{errors.New("link down"), errors.New("ring stalled")}
 	case 'E':
 		return io.EOF
 	case 'B':
@@ -101,7 +109,7 @@ func (e *c20env) ReadPacketData() ([]byte, *gopacket.CaptureInfo, error) {
 		sym := e.script[i]
 		vs.Observe("read", "%c%d", sym, i)
 		if sym == 'F' || sym == 'P' || sym == 'p' || sym == 'q' {
-			data = []byte{sym, byte(i)}
+			data = []byte{sym, byte(i >> 8), byte(i)}
 			return
 		}
 		err = c20err(sym, i)
@@ -113,10 +121,11 @@ func (e *c20env) ReadPacketData() ([]byte, *gopacket.CaptureInfo, error) {
 }
 
 func (e *c20env) ProcessPacketData(data []byte, _ *gopacket.CaptureInfo) error {
-	e.processed = append(e.processed, fmt.Sprintf("%c%d", data[0], data[1]))
+	pos := int(data[1])<<8 | int(data[2])
+	e.processed = append(e.processed, fmt.Sprintf("%c%d", data[0], pos))
 	switch data[0] {
 	case 'P':
-		return fmt.Errorf("process-%d", data[1])
+		return fmt.Errorf("process-%d", pos)
 	case 'p':
 		return io.ErrUnexpectedEOF
 	case 'q':
@@ -147,6 +156,9 @@ func c20model(script string) (processed, errs []string, terminated bool, sleeps 
 			sleeps++
 		case sym == 'V':
 			errs = append(errs, fmt.Sprintf("unknown-%d", i))
+			sleeps++
+		case sym == 'H':
+			errs = append(errs, c20multi{errors.New("link down"), errors.New("ring stalled")}.Error())
 			sleeps++
 		case strings.IndexByte(c20Terminal, sym) >= 0:
 			return processed, errs, true, sleeps
@@ -191,7 +203,7 @@ func c20run(script string, consumerStopsOnCancel bool, withCancel bool) (cfg fun
 	cfg = func(s *vs.Sched) {
 		e = &c20env{script: script}
 		cancel = nil
-		s.Horizon = 5000
+		s.Horizon = 5000 + 40*len(script)
 		s.CapMap = func(c int) int {
 			if c >= 100 {
 				return 2
@@ -312,15 +324,16 @@ func init() { drv.Register("c20", verifC20) }
 
 func verifC20(c *drv.Ctx) {
 	alpha, maxLen, maxLenD1 := "FPATtRUEBC", 5, 3
-	ext, extLen := "FPpqATtwaRUVEBC", 4
+	ext, extLen := "FPpqATtwaRUVHEBC", 4
 	if c.Thorough() {
 		alpha, maxLen, maxLenD1 = "FPATtRUEBCXYar", 5, 4
-		ext, extLen = "FPpqATtwarRUVEBCXY", 4
+		ext, extLen = "FPpqATtwarRUVHEBCXY", 4
 	}
 	c.R.Rule = fmt.Sprintf("every reachable read-outcome script of length <= %d over %q and of length <= %d over the extended alphabet %q (terminal symbols only last; p, q = frames whose processing fails with io.ErrUnexpectedEOF / EAGAIN, w = EWOULDBLOCK wrapped with %%w, a = EAGAIN in an os.SyscallError) x {consumer drains to close, consumer stops on cancel}; "+
 		"each run through the real ReceivePackets under the scheduler, reads being scheduling points: deviation bound 0 with the cancel event injected at every choice point for all scripts, bound 1 for scripts of length <= %d; "+
 		"non-trivial = script contains at least one frame or error symbol", maxLen, alpha, extLen, ext, maxLenD1)
 	seenScript := map[string]bool{}
+	long := false
 	idx := 0
 	each := func(script string) {
 		if seenScript[script] {
@@ -336,7 +349,7 @@ func verifC20(c *drv.Ctx) {
 			if len(script) <= maxLenD1 {
 				bound = 1
 			}
-			cfg, main, check := c20run(script, stop, true)
+			cfg, main, check := c20run(script, stop, !long)
 			r := vs.Explore(vs.Options{Bound: bound, Iterate: true, Deadline: c.Deadline}, cfg, main, check)
 			name := fmt.Sprintf("script=%q consumerStopsOnCancel=%v", script, stop)
 			c.Explore(name, r, func(v vs.Violation) string { return "script=" + script })
@@ -350,5 +363,24 @@ func verifC20(c *drv.Ctx) {
 	}
 	c20scripts(alpha, maxLen, each)
 	c20scripts(ext, extLen, each)
+	// long fault bursts (no bound on how many failures in a row the receiver survives): hundreds of
+	// unknown failures with transient ones in between, then frames again
+	for _, n := range []int{150, 230, 1100} {
+		var b []byte
+		b = append(b, 'F')
+		for i := 0; i < n; i++ {
+			b = append(b, 'U')
+			if i%7 == 3 {
+				b = append(b, 'A')
+			}
+			if i%50 == 49 {
+				b = append(b, 'T')
+			}
+		}
+		b = append(b, 'F', 'P', 'F', 'E')
+		long = true
+		each(string(b))
+		long = false
+	}
 	c.Set("scripts", idx/2)
 }
